@@ -197,7 +197,11 @@ func rulePhaseProgress(c *RC) *RuleResult {
 				if kl&(KillNNOwn|KillNNSender|KillNNPrimary|KillNNOther) == 0 || kl&KillAny != 0 {
 					continue
 				}
-				if why := judge(e, ph); why != "" {
+				why := judge(e, ph)
+				if os.Getenv("DBFTLINT_DEBUG_STORECHECK") != "" {
+					fmt.Printf("STORECHECK root=%s table=%s kl=%b why=%q trail={%s}\n", root.Name, table, kl, why, strings.Join(e.Trail, " ; "))
+				}
+				if why != "" {
 					bad = why
 				}
 			}
@@ -243,7 +247,7 @@ func rulePhaseProgress(c *RC) *RuleResult {
 
 // phaseRoot climbs from fn to the outermost function of its cluster (single-caller private helpers are walked inline).
 func (c *RC) phaseRoot(fn *FuncInfo) *FuncInfo {
-	for hop := 0; hop < 4 && c.A.inlinable(fn); hop++ {
+	for hop := 0; hop < 4 && (c.A.inlinable(fn) || c.A.inlinableValue(fn)); hop++ {
 		cs := c.A.callers[fn]
 		if len(cs) != 1 {
 			break
